@@ -1,7 +1,7 @@
 (** C30 proofs. *)
 From Coq Require Import List Arith NArith ZArith Bool Lia.
-From TwLib Require Import PyBytes Seg.
-From C30 Require Import Model.
+From TwLib Require Import PyBytes Seg CodecsText FramingText.
+From C30 Require Import Text Model ProofsText.
 Import ListNotations.
 
 Lemma firstn_app_le : forall (b c : bytes) k, k <= length b -> firstn k (b ++ c) = firstn k b.
@@ -240,7 +240,7 @@ Proof. reflexivity. Qed.
 
 Lemma codec_roundtrip : forall t v b, enc t v = Some b -> dec t b = Some v.
 Proof.
-  induction t as [| | |e IH]; intros v b H; destruct v as [z|s|bb|l]; try discriminate; cbn [enc] in H.
+  induction t as [| | |e IH| | |]; intros v b H; destruct v as [z|s|bb|l|d|dt|us]; try discriminate; cbn [enc] in H.
   - inversion H; subst. cbn [dec]. now rewrite int_roundtrip.
   - inversion H; subst. reflexivity.
   - inversion H; subst. destruct bb; reflexivity.
@@ -253,6 +253,10 @@ Proof.
       rewrite (IH x s Hs). specialize (IHl rest eq_refl).
       destruct (all_some (map (dec e) (int16_strings rest))) as [l'|]; [|discriminate].
       inversion IHl; subst. reflexivity.
+  - inversion H; subst. cbn [dec]. now rewrite decimal_text_roundtrip.
+  - destruct (dt_valid dt) eqn:Hv; [|discriminate]. inversion H; subst. cbn [dec]. now rewrite (datetime_text_roundtrip dt Hv).
+  - unfold uni_to_bytes in H. destruct (forallb scalar us) eqn:Hs; [|discriminate]. inversion H; subst. cbn [dec].
+    now rewrite (utf8_roundtrip us Hs).
 Qed.
 
 (** * the unrepaired serialize: an empty key writes the terminator in the middle of the box (finding F11) *)
